@@ -21,6 +21,9 @@ ASSUMPTIONS = ["np.random.choice over range(n) with p=None is uniform and raises
 
 
 def run(ck, an, tier):
+    from rules import C10 as _c10
+    from sa.report import Renamed as _R10
+    _c10.s2(_R10(ck, "C10:"), an)      # the start of a sampled episode is drawn from the process-wide numpy stream: nothing in the package may re-seed or consume it on the way
     s1(ck, an)
     s2(ck, an)
     s3(ck, an)
